@@ -108,6 +108,9 @@ type Msg struct {
 	Attrs    []*Attr    `json:"attrs"`
 	Injected []Injected `json:"injected,omitempty"`
 	Empty    bool       `json:"empty,omitempty"`
+	// Placeholder: the level shows the artificial attribute `active` (the message has no
+	// fields, or it embeds a message without fields, whose placeholder is flattened into it).
+	Placeholder bool `json:"placeholder,omitempty"`
 	// DepPkg: the Go struct lives in the dependency package.
 	Dep bool `json:"dep,omitempty"`
 }
